@@ -20,6 +20,7 @@ type EvalCtx struct {
 	side  []Term // extensionality instances etc. to assume alongside
 	depth int
 	polarityUnknown bool
+	loopSnap *State
 }
 
 func (c *EvalCtx) child() *EvalCtx {
@@ -244,6 +245,16 @@ func (c *EvalCtx) call(x *ast.CallExpr) Term {
 		r := n.eval(x.Args[0])
 		c.side = append(c.side, n.side[len(c.side):]...)
 		return r
+	case "atloop":
+		// atloop(e): e evaluated in the heap as it was when the loop was entered
+		if c.loopSnap == nil {
+			c.fail("atloop() outside a loop invariant")
+		}
+		n := *c
+		n.st = c.loopSnap
+		r := n.eval(x.Args[0])
+		c.side = append(c.side, n.side[len(c.side):]...)
+		return r
 	case "fresh":
 		v := c.eval(x.Args[0])
 		base := c.u.entry
@@ -308,6 +319,31 @@ func (c *EvalCtx) call(x *ast.CallExpr) Term {
 		r := app(c.u.payloadFn(t), c.u.sortOf(t), v)
 		r.T = t
 		return r
+	case "trig":
+		// trig(pattern, body): body annotated with an E-matching trigger (for declared axioms)
+		pat := c.eval(x.Args[0])
+		body := c.eval(x.Args[1])
+		if !c.mentionsBound(pat) {
+			// not under a quantifier here (e.g. logical variables while verifying the function itself)
+			return body
+		}
+		body.Pat = pat.S
+		return body
+	case "succeeds":
+		// succeeds(F, args...): the (last) error result of deterministic function F is nil
+		id, ok := x.Args[0].(*ast.Ident)
+		if !ok {
+			c.fail("succeeds(F, args...)")
+		}
+		dc := c.u.eng.deterministicByName(c.pkg, id.Name)
+		if dc == nil {
+			c.fail("succeeds: %s is not a deterministic function under contract", id.Name)
+		}
+		var args []Term
+		for _, a := range x.Args[1:] {
+			args = append(args, c.eval(a))
+		}
+		return eq(c.u.detResult(dc, len(dc.Results)-1, args), intLit(0))
 	case "unchanged":
 		// unchanged(x.f) : the designated heap location has its old value
 		cur := c.eval(x.Args[0])
@@ -323,13 +359,32 @@ func (c *EvalCtx) call(x *ast.CallExpr) Term {
 	if pd, ok := c.u.eng.contracts.Preds[fn.Name]; ok {
 		return c.expandPred(pd, x)
 	}
-	if uf, ok := c.u.eng.ufuns[fn.Name]; ok {
+	for _, uf := range c.u.eng.contracts.UFuns {
+		if uf.Name != fn.Name {
+			continue
+		}
+		pkg := c.u.eng.pkgByPath(uf.Pkg)
+		var args []Term
+		var sorts []string
+		for i, a := range x.Args {
+			args = append(args, c.eval(a))
+			sorts = append(sorts, c.u.sortOf(c.u.eng.resolveType(pkg, uf.Params[i].Type)))
+		}
+		rt := c.u.eng.resolveType(pkg, uf.Result.Type)
+		name := "uf_" + uf.Name
+		c.u.pre.declFun(name, fmt.Sprintf("(declare-fun %s (%s) %s)", name, strings.Join(sorts, " "), c.u.sortOf(rt)))
+		c.u.useAxioms(uf.Name)
+		r := app(name, c.u.sortOf(rt), args...)
+		r.T = rt
+		return r
+	}
+	// a deterministic /repo function used as a spec function: F(args) denotes its first result
+	if dc := c.u.eng.deterministicByName(c.pkg, fn.Name); dc != nil {
 		var args []Term
 		for _, a := range x.Args {
 			args = append(args, c.eval(a))
 		}
-		c.u.pre.declFun(uf.name, uf.decl)
-		return app(uf.name, uf.ret, args...)
+		return c.u.detResult(dc, 0, args)
 	}
 	c.fail("unknown spec function %q", fn.Name)
 	return Term{}
@@ -341,6 +396,18 @@ func (c *EvalCtx) expandPred(pd *PredDef, x *ast.CallExpr) Term {
 	}
 	if c.depth > 40 {
 		c.fail("pred expansion too deep (recursive pred %s?)", pd.Name)
+	}
+	if pd.Opaque && !c.u.reveals(pd.Name) {
+		var args []Term
+		var sorts []string
+		for _, a := range x.Args {
+			t := c.eval(a)
+			args = append(args, t)
+			sorts = append(sorts, t.Sort)
+		}
+		n := "opq_" + pd.Name
+		c.u.pre.declFun(n, fmt.Sprintf("(declare-fun %s (%s) Bool)", n, strings.Join(sorts, " ")))
+		return app(n, SBool, args...)
 	}
 	if pd.Abstract {
 		// abstract predicate: uninterpreted boolean over its arguments and a version of the state
@@ -424,6 +491,14 @@ func (c *EvalCtx) quant(kind string, x *ast.CallExpr) Term {
 	// side conditions mentioning no bound variable can be hoisted
 	c.side = append(c.side, n.side...)
 	if kind == "forall" {
+		// forall(x, T, true, forall(y, ...)) becomes one quantifier with several binders,
+		// so that a trigger can mention all of them
+		if g.S == "true" && strings.HasPrefix(b.S, "(forall (") {
+			return mk("(forall (("+bn+" "+sort+") "+strings.TrimPrefix(b.S, "(forall ("), SBool)
+		}
+		if b.Pat != "" {
+			return mk(fmt.Sprintf("(forall ((%s %s)) (! %s :pattern (%s)))", bn, sort, implies(g, b).S, b.Pat), SBool)
+		}
 		return mk(fmt.Sprintf("(forall ((%s %s)) %s)", bn, sort, implies(g, b).S), SBool)
 	}
 	return mk(fmt.Sprintf("(exists ((%s %s)) %s)", bn, sort, and(g, b).S), SBool)
@@ -440,7 +515,7 @@ func (c *EvalCtx) index(x *ast.IndexExpr) Term {
 			c.fail("index of untyped slice %s", exprString(x.X))
 		}
 		et := v.T.Underlying().(*types.Slice).Elem()
-		idx := add(app("soff", SInt, v), i)
+		idx := app("sidx", SInt, v, i)
 		if _, ok := isStruct(et); ok {
 			r := c.u.elemRef(et, app("sbase", SInt, v), idx)
 			// a struct element designates the struct at that reference; field selection follows
@@ -661,4 +736,16 @@ func exprString(e ast.Expr) string {
 		return exprString(x.X) + "[" + lo + ":" + hi + "]"
 	}
 	return fmt.Sprintf("%T", e)
+}
+
+func (u *Unit) reveals(name string) bool {
+	if u.contract == nil {
+		return false
+	}
+	for _, r := range u.contract.Reveals {
+		if r == name {
+			return true
+		}
+	}
+	return false
 }
